@@ -92,6 +92,18 @@ SameLen(t, o) == Len(Forms[t].ops) = NOps(o)
 RwCands(o) == {Names[o.n][q] : q \in 1..Len(Names[o.n])}
 Twins0(o) == {t \in RwCands(o) : ArchOk(Forms[t], o.m) /\ SameLen(t, o) /\ \A j \in 1..NOps(o) : OpFits(Forms[t].ops[j], o.ops[j])}
 Twins(o) == IF Twins0(o) = {} THEN {o.f} ELSE Twins0(o)
+(* "It executes on any CPU that has the reported features" is judged against the encoding the library EMITS for the very      *)
+(* request (o.b = bytes appended by x86::Assembler, o.ae its error): after the legacy prefixes, 62h starts an EVEX and C4h/C5h   *)
+(* a VEX instruction (SDM vol.2 2.3.5, 2.7; only for instructions that have such rows - 62/C4/C5 are BOUND/LES/LDS otherwise).  *)
+(* An EVEX encoding (register id >= 16, {k}, {er}/{sae}, broadcast, 512-bit, evex option, preference) needs what the EVEX row  *)
+(* of this operand signature needs: AVX512_F / its own extension, and AVX512_VL below 512 bits (W5); a VEX encoding what    *)
+(* the VEX row needs.  When the emitted kind has no row of this signature, or nothing was emitted, any twin row is accepted.   *)
+EncByte(o) == At(o.b, PfxLen(o.b, 1, LegacyPfx) + 1)
+EmKind(o) == IF o.ae # 0 \/ Len(o.b) = 0 THEN "?"
+             ELSE IF EncByte(o) = 98 THEN "E" ELSE IF EncByte(o) \in {196, 197} THEN "V" ELSE "L"
+KindTwins(o) == LET K == {t \in Twins(o) : RWForms[t].pk = EmKind(o)}
+                IN IF EmKind(o) \in {"E", "V"} /\ K # {} THEN K ELSE Twins(o)
+
 (* rows of the same instruction in which operand j may be memory and every other operand is the observed one *)
 RmRows(o, j) == {t \in RwCands(o) : /\ ArchOk(Forms[t], o.m) /\ SameLen(t, o) /\ Forms[t].ops[j].msz >= 0
                                   /\ \A q \in 1..NOps(o) : q = j \/ OpFits(Forms[t].ops[q], o.ops[q])}
@@ -118,7 +130,7 @@ Leg1Fails(f, o) ==
   \cup {<<"flag-written", b>> : b \in {x \in WrittenFlags(f) : ~HasFl(o.wf, x)}}
   \cup (IF o.k # 0 /\ ~HasFl(o.xr.fl, FlRead) THEN {<<"mask-read", 0>>} ELSE {})
   \cup (IF o.fe # 0 THEN {<<"no-feature-info", 0>>}
-        ELSE IF \E t \in Twins(o) : \A e \in ExtOf(t) : e \in SeqSet(o.feat) \/ e \notin FeatNames THEN {}
+        ELSE IF \E t \in KindTwins(o) : \A e \in ExtOf(t) : e \in SeqSet(o.feat) \/ e \notin FeatNames THEN {}
         ELSE {<<"features", 0>>})
 
 \* ---------------------------------------------------------------- leg 2: report vs processor ------------------
@@ -140,8 +152,20 @@ ArchGpR(f, o, id, G) == \/ \E j \in GpOpsOf(o, id) : ARead(f, o, j) /\ \E b \in 
 
 (* a recorded dependency counts unless only architecturally UNDEFINED outputs moved: undefined flags, and the        *)
 (* destination of bsf / bsr for a zero source (SDM: destination undefined)                                       *)
-DepCounts(f, o, d) == \/ d.nf = 1 /\ ~(o.n \in {"bsf", "bsr"} /\ d.t = "g" /\ d.id = o.ops[1].id)
+DepCounts(f, o, d) == \/ d.nf = 1 /\ ~(o.n \in {"bsf", "bsr"} /\ d.t = "g" /\ d.id = o.ops[1].id)     \* = NotUndefDest, defined below
                       \/ \E b \in AllFlagBits : HasFl(d.of, b) /\ b \notin UndefFlags(f)
+(* d.pt = bytes of the perturbed register that differ between two runs and merely show the OLD value through (merge-masking, *)
+(* partial or conditional writes).  Such a byte is a result of the instruction - and the old value an input - exactly when the  *)
+(* byte is reported (resp. annotated) as WRITTEN: `mov al, bl` leaves rax[63:8] alone and does not claim them, a merge-masked   *)
+(* destination claims every element.  (Undefined: bsf/bsr leave the destination alone for a zero source.)                    *)
+NotUndefDest(o, d) == ~(o.n \in {"bsf", "bsr"} /\ d.t = "g" /\ d.id = o.ops[1].id)
+RepPtGp(o, d, G) == NotUndefDest(o, d) /\ \E b \in G : Bit(d.pt[1], b) = 1
+                       /\ \E j \in GpOpsOf(o, d.id) : HasFl(o.rw[j].fl, FlWrite) /\ ByteIn(o.rw[j].w, b - Shift(o.ops[j]))
+RepPtVec(o, d) == \E j \in VecOpsOf(o, d.id) : HasFl(o.rw[j].fl, FlWrite) /\ \E b \in 0..63 : ByteIn(d.pt, b) /\ ByteIn(o.rw[j].w, b)
+RepPtK(o, d) == \E j \in KOpsOf(o, d.id) : HasFl(o.rw[j].fl, FlWrite) /\ \E b \in 0..7 : ByteIn(d.pt, b) /\ ByteIn(o.rw[j].w, b)
+ArchPtGp(f, o, d, G) == NotUndefDest(o, d) /\ \E b \in G : Bit(d.pt[1], b) = 1
+                       /\ \E j \in GpOpsOf(o, d.id) : AWrite(f, j) /\ b - Shift(o.ops[j]) >= Lo(f.ops[j]) /\ b - Shift(o.ops[j]) < Hi(f.ops[j])
+ArchPtVec(f, o, d) == \E j \in VecOpsOf(o, d.id) : AWrite(f, j) /\ f.ops[j].nb > 0 /\ \E b \in Lo(f.ops[j])..(Hi(f.ops[j]) - 1) : ByteIn(d.pt, b)
 Judged(x) == x.run = 1 /\ x.st >= 4 /\ x.nd = 0
 
 Leg2Fails(f, o) ==
@@ -153,12 +177,13 @@ Leg2Fails(f, o) ==
   \cup {<<"x-changed-k", e[1]>> : e \in {g \in SeqSet(x.kl) : ~\E j \in KOpsOf(o, g[1]) : HasFl(o.rw[j].fl, FlWrite)}}
   \cup {<<"x-changed-flag", b>> : b \in {y \in AllFlagBits : HasFl(x.fc, y) /\ ~HasFl(o.wf, y)}}
   \cup (IF x.ml = 1 /\ ~(\E j \in MemOps(o) : HasFl(o.rw[j].fl, FlWrite)) THEN {<<"x-changed-memory", 0>>} ELSE {})
-  \cup {<<"x-depends-gp", d.id>> : d \in {y \in SeqSet(x.dep) : y.t = "g" /\ DepCounts(f, o, y)
-                                            /\ \E G \in Groups : (\E b \in G : Bit(y.m, b) = 1) /\ ~RepGpR(o, y.id, G)}}
-  \cup {<<"x-depends-vec", d.id>> : d \in {y \in SeqSet(x.dep) : y.t = "v" /\ DepCounts(f, o, y)
+  \cup {<<"x-depends-gp", d.id>> : d \in {y \in SeqSet(x.dep) : y.t = "g"
+                                            /\ \E G \in Groups : ((DepCounts(f, o, y) /\ \E b \in G : Bit(y.m, b) = 1) \/ RepPtGp(o, y, G))
+                                                                 /\ ~RepGpR(o, y.id, G)}}
+  \cup {<<"x-depends-vec", d.id>> : d \in {y \in SeqSet(x.dep) : y.t = "v" /\ (DepCounts(f, o, y) \/ RepPtVec(o, y))
                                             /\ ~(\E j \in VecOpsOf(o, y.id) : HasFl(o.rw[j].fl, FlRead))
                                             /\ ~(\E j \in MemOps(o) : IsVec(o.ops[j].it) /\ o.ops[j].i = y.id)}}
-  \cup {<<"x-depends-k", d.id>> : d \in {y \in SeqSet(x.dep) : y.t = "k" /\ DepCounts(f, o, y)
+  \cup {<<"x-depends-k", d.id>> : d \in {y \in SeqSet(x.dep) : y.t = "k" /\ (DepCounts(f, o, y) \/ RepPtK(o, y))
                                             /\ ~(\E j \in KOpsOf(o, y.id) : HasFl(o.rw[j].fl, FlRead))
                                             /\ ~(o.k = y.id /\ HasFl(o.xr.fl, FlRead))}}
   \cup {<<"x-depends-memory", 0>> : d \in {y \in SeqSet(x.dep) : y.t = "m" /\ DepCounts(f, o, y)
@@ -174,9 +199,10 @@ DbFails(f, o) ==
   \cup {<<"d-changed-flag", b>> : b \in {y \in AllFlagBits : HasFl(x.fc, y) /\ y \notin WrittenFlags(f)}}
   \cup (IF x.ml = 1 /\ ~(\E j \in MemOps(o) : AWrite(f, j)) THEN {<<"d-changed-memory", 0>>} ELSE {})
   \cup (IF x.ml = 1 /\ (\E j \in MemOps(o) : o.ops[j].sz > 0 /\ (x.mlo < 0 \/ x.mhi >= MemBytes(o.ops[j]))) THEN {<<"d-changed-memory-outside-size", 0>>} ELSE {})
-  \cup {<<"d-depends-gp", d.id>> : d \in {y \in SeqSet(x.dep) : y.t = "g" /\ DepCounts(f, o, y)
-                                            /\ \E G \in Groups : (\E b \in G : Bit(y.m, b) = 1) /\ ~ArchGpR(f, o, y.id, G)}}
-  \cup {<<"d-depends-vec", d.id>> : d \in {y \in SeqSet(x.dep) : y.t = "v" /\ DepCounts(f, o, y) /\ ~(\E j \in VecOpsOf(o, y.id) : ARead(f, o, j))}}
+  \cup {<<"d-depends-gp", d.id>> : d \in {y \in SeqSet(x.dep) : y.t = "g"
+                                            /\ \E G \in Groups : ((DepCounts(f, o, y) /\ \E b \in G : Bit(y.m, b) = 1) \/ ArchPtGp(f, o, y, G))
+                                                                 /\ ~ArchGpR(f, o, y.id, G)}}
+  \cup {<<"d-depends-vec", d.id>> : d \in {y \in SeqSet(x.dep) : y.t = "v" /\ (DepCounts(f, o, y) \/ ArchPtVec(f, o, y)) /\ ~(\E j \in VecOpsOf(o, y.id) : ARead(f, o, j))}}
   \cup {<<"d-depends-k", d.id>> : d \in {y \in SeqSet(x.dep) : y.t = "k" /\ DepCounts(f, o, y) /\ ~(\E j \in KOpsOf(o, y.id) : ARead(f, o, j)) /\ o.k # y.id}}
   \cup {<<"d-depends-memory", 0>> : d \in {y \in SeqSet(x.dep) : y.t = "m" /\ DepCounts(f, o, y) /\ ~(\E j \in MemOps(o) : ARead(f, o, j))}}
   \cup {<<"d-depends-memory-outside-size", 0>> : d \in {y \in SeqSet(x.dep) : y.t = "o" /\ DepCounts(f, o, y)}}
